@@ -18,6 +18,9 @@ BASE_NOTE = ("Trusted: Lean 4.33.0 kernel; axioms propext, Classical.choice, Quo
 
 def P(title, profiles, components, ops, text, theorems=(), module=None, level="proof", probes="", directed=None,
       assumptions=(), facts=(), claim=None, technique="Lean 4 theorems over an executable model + trace correspondence with the real app"):
+    if not theorems and level == "proof":
+        # no machine-checked theorem registered for this property yet: only the model/code correspondence is claimed
+        level = "translation_validation"
     d = dict(title=title, profiles=profiles, components=components, ops=ops, text=text, theorems=list(theorems),
              module=module, level=level, probes=probes, quick=dict(Q), thorough=dict(T), assumptions=list(assumptions),
              facts=list(facts), claim=claim or text, note=BASE_NOTE, technique=technique)
